@@ -78,7 +78,7 @@ def regen(case, **kw):
     return c
 
 # ---- schedules ---------------------------------------------------------------------------------------
-def schedule(rng, horizon=6000, nthreads=40, allow_buggify=True):
+def schedule(rng, horizon=6000, nthreads=40, allow_buggify=True, api_stall=0.2):
     """one seeded schedule policy (swarm): returns the "sim" dict"""
     seed = rng.getrandbits(48)
     r = rng.random()
@@ -100,6 +100,9 @@ def schedule(rng, horizon=6000, nthreads=40, allow_buggify=True):
     else:
         s = {'policy': 'rand', 'sw': 200, 'stall': [rng.randint(1, horizon), rng.randint(1, nthreads), rng.randint(50, 2000)]}
     s['seed'] = seed
+    if rng.random() < api_stall:
+        # a slow application: task 0 is withheld in the middle of API calls while the library keeps running
+        s['api_stall'] = [rng.choice([30, 80, 200]), rng.choice([300, 1500, 5000])]
     if allow_buggify:
         if rng.random() < 0.25:
             s['eintr'] = rng.choice([5, 20, 100])
